@@ -200,7 +200,8 @@ func (fu *folderUpload) FormattedPath() string {
 		pathData = pathData[3+segLen:]
 	}
 
-	return filepath.Join(pathSegments...)
+	// Anchor the client supplied segments at "/" so that ".." items cannot climb out of the upload folder.
+	return filepath.Join("/", filepath.Join(pathSegments...))
 }
 
 type FileHeader struct {
